@@ -149,9 +149,13 @@ static GenXml gen_xml(Draw &d, const GenXmlOpts &o = GenXmlOpts()) {
   if (o.allow_disallowed && g.pus.size() > 1 && d.chance(1, 6)) { auto it = g.allowed_c.begin(); std::advance(it, d.raw() % g.allowed_c.size()); g.allowed_c.erase(it); }
   if (o.allow_disallowed && g.numas.size() > 1 && d.chance(1, 8)) { auto it = g.allowed_n.begin(); std::advance(it, d.raw() % g.allowed_n.size()); g.allowed_n.erase(it); }
   if (o.allow_omit) { g.has_allowed_attrs = !d.chance(1, 5); g.has_complete_attrs = !d.chance(1, 6); if (!g.has_allowed_attrs) { g.allowed_c = g.pus; g.allowed_n = g.numas; } }
-  // decorations: names, subtypes, infos, Misc and I/O children
+  // decorations: names, subtypes, infos, Misc and I/O children; one document in four is heavily decorated (Misc on most objects, so that
+  // objects and their single child both carry special children), and memory objects carry Misc children too
+  int miscden = d.chance(1, 4) ? 2 : 10;
+  if (o.allow_misc) { std::vector<GNode *> memobjs; for (GNode *n : x.normals) for (auto &m : n->mem) { memobjs.push_back(m.get()); if (m->type == HWLOC_OBJ_MEMCACHE) memobjs.push_back(m->mem[0].get()); }
+    for (GNode *mo : memobjs) if (d.chance(1, miscden == 2 ? 2 : 6)) { auto m = gx_new(x, HWLOC_OBJ_MISC); m->name = mo->type == HWLOC_OBJ_MEMCACHE ? "misc-on-memcache" : "misc-on-numa"; mo->misc.push_back(std::move(m)); g.nmisc++; } }
   for (GNode *n : x.normals) { if (d.chance(1, 6)) n->name = d.chance(1, 2) ? "nm" : "a<b&c\"d"; if (d.chance(1, 8)) n->subtype = "sub"; if (d.chance(1, 6)) n->infos.push_back({"k", d.chance(1, 2) ? "v" : "x>y"});
-    if (o.allow_misc && d.chance(1, 10)) { auto m = gx_new(x, HWLOC_OBJ_MISC); m->name = "misc"; if (d.chance(1, 3)) { auto m2 = gx_new(x, HWLOC_OBJ_MISC); m2->name = "inner"; m->misc.push_back(std::move(m2)); g.nmisc++; } n->misc.push_back(std::move(m)); g.nmisc++; } }
+    if (o.allow_misc && d.chance(1, miscden)) { auto m = gx_new(x, HWLOC_OBJ_MISC); m->name = "misc"; if (d.chance(1, 3)) { auto m2 = gx_new(x, HWLOC_OBJ_MISC); m2->name = "inner"; m->misc.push_back(std::move(m2)); g.nmisc++; } n->misc.push_back(std::move(m)); g.nmisc++; } }
   if (o.allow_io && d.chance(1, 3)) { unsigned nhb = 1 + d.range(0, 1); for (unsigned h = 0; h < nhb; h++) { GNode *host = x.normals[d.raw() % x.normals.size()]; auto hb = gx_new(x, HWLOC_OBJ_BRIDGE); hb->hostbridge = true; hb->pdom = d.chance(1, 8) ? 0x10000 : 0; hb->secbus = h * 0x40; hb->subbus = h * 0x40 + 0x3f;
       unsigned ndev = 1 + d.range(0, 2); for (unsigned k = 0; k < ndev; k++) { auto pd = gx_new(x, HWLOC_OBJ_PCI_DEVICE); pd->pdom = hb->pdom; pd->pbus = hb->secbus; pd->pdev = k + 1; pd->pfunc = d.range(0, 1); if (d.chance(1, 2)) { auto od = gx_new(x, HWLOC_OBJ_OS_DEVICE); od->name = strf("dev%u", k); od->osdev = 1u << d.range(0, 6); pd->io.push_back(std::move(od)); g.nio++; } hb->io.push_back(std::move(pd)); g.nio++; }
       if (d.chance(1, 2)) { auto br = gx_new(x, HWLOC_OBJ_BRIDGE); br->pdom = hb->pdom; br->pbus = hb->secbus; br->pdev = 0x1f; br->secbus = hb->secbus + 1; br->subbus = hb->secbus + 2; auto pd = gx_new(x, HWLOC_OBJ_PCI_DEVICE); pd->pdom = hb->pdom; pd->pbus = br->secbus; pd->pdev = 0; br->io.push_back(std::move(pd)); hb->io.push_back(std::move(br)); g.nio += 2; }
